@@ -76,8 +76,19 @@ def verify_contract(c, timeout_ms=30000, jobs=None, defer=False):
     res.trusted = list(c.trusted) + ["assume: " + a for a in c.assume]
     t0 = time.time()
     try:
-        module, cls, fn = loader.find_function(c.qualname)
-        res.source_hash = loader.source_hash(fn, module)
+        if ".c:" in c.qualname:
+            import hashlib
+            from .cfront import parse_c_file
+            from pycparser import c_generator
+            rel, _, fname = c.qualname.partition(":")
+            funcs = parse_c_file(rel)[1]
+            if fname not in funcs:
+                raise loader.AnchorError("C function %s not in %s" % (fname, rel))
+            res.source_hash = hashlib.sha256(c_generator.CGenerator().visit(funcs[fname]).encode()).hexdigest()[:16]
+            res.kind = "c-function"
+        else:
+            module, cls, fn = loader.find_function(c.qualname)
+            res.source_hash = loader.source_hash(fn, module)
         ex = Explorer(c)
         res.explorer = ex
         obs = ex.explore()
